@@ -139,6 +139,19 @@ Example F10_ifok_negated_flag_not_a_name :
   mout t_ifok_noname c_ifok = Some (B "F", None) /\ rout t_ifok_noname c_ifok = (B "T", SNone).
 Proof. vm_compute. repeat split. Qed.
 
+(* F11. the last case of a condition-less switch without default, with an empty body and a test
+   that is an error (two literals, or an unknown helper): the parser leaves no node for a trailing
+   group without children, so the test is never evaluated and the switch renders nothing without
+   error; the reference semantics evaluates the test and reports the error.  (A case with an
+   empty body that is NOT last is evaluated on both sides and agrees.) *)
+Definition t_switch_empty_last := [AText (B "a"); ASwitch [] [ACase (cnd "a" "b" true true OpEq) []] [] false; AText (B "z")].
+Definition t_switch_empty_mid :=
+  [AText (B "a"); ASwitch [] [ACase (cnd "a" "b" true true OpEq) []; ACase (cnd "x" "1" false true OpEq) [AText (B "X")]] [] false; AText (B "z")].
+Example F11_dropped_last_case_test_not_evaluated :
+  mout t_switch_empty_last ctx_new = Some (B "az", None) /\ rout t_switch_empty_last ctx_new = (B "a", SErr ESenseless) /\
+  mout t_switch_empty_mid ctx_new = Some (B "a", Some ESenseless) /\ rout t_switch_empty_mid ctx_new = (B "a", SErr ESenseless).
+Proof. vm_compute. repeat split. Qed.
+
 (* ------------------------------------------------------------------ the unrestricted statement *)
 
 Definition sig_rel0 (s : sig) (eo : option err) : Prop :=
@@ -240,3 +253,17 @@ Example writer_fault_in_ifok_reported :
   | _ => False
   end.
 Proof. vm_compute. reflexivity. Qed.
+
+(* a case with an empty body wins over later cases and the default, and renders nothing; a
+   trailing empty case / empty default is dropped by the parser and changes nothing *)
+Definition c_x1 := ctx_set (B "x") (VInt 1) false ctx_new.
+Definition t_switch_empty_cases :=
+  [ASwitch (B "x") [ACase (cnd "1" "" true false OpUnk) []; ACase (cnd "1" "" true false OpUnk) [AText (B "late")]] [AText (B "dflt")] true;
+   AText (B "|");
+   ASwitch (B "x") [ACase (cnd "2" "" true false OpUnk) [AText (B "two")]; ACase (cnd "1" "" true false OpUnk) []] [] false;
+   AText (B "|");
+   ASwitch (B "x") [ACase (cnd "2" "" true false OpUnk) [AText (B "two")]] [AComment (B "nothing")] true].
+Example switch_empty_bodies_agree :
+  forallb (wf_supported true) t_switch_empty_cases = true /\
+  mout t_switch_empty_cases c_x1 = Some (B "||", None) /\ rout t_switch_empty_cases c_x1 = (B "||", SNone).
+Proof. vm_compute. repeat split. Qed.
